@@ -32,7 +32,8 @@ Apply(kind, tok, old) ==
   CASE kind = "append" -> Append(old, tok)
     [] kind = "chop"   -> IF old = <<>> THEN old ELSE SubSeq(old, 1, Len(old) - 1)
     [] kind = "same"   -> [k \in 1..Len(old) |-> tok]
-    [] kind = "grow"   -> [k \in 1..(Len(old) + 1) |-> tok]      \* every byte changes and the file gets longer
+    [] kind = "grow"   -> [k \in 1..(Len(old) + 1) |-> tok]
+    [] kind = "grow3"  -> [k \in 1..(Len(old) + 3) |-> tok]      \* a tail of several bytes: its write can be short      \* every byte changes and the file gets longer
 
 Init == /\ prog \in Progs
         /\ content = InitContent /\ exists = TRUE
